@@ -246,6 +246,13 @@ func runCheck(prop, tier string, overlay map[string][]byte, mutantMode bool) (*C
 	if os.Getenv("GOVC_DEBUG") != "" {
 		fmt.Fprintf(os.Stderr, "[govc] %d obligation instances to solve\n", len(solveList))
 	}
+	for _, o := range solveList {
+		for _, kf := range known.Findings {
+			if kf.Property == prop && kf.Obligation == o.Name && strings.HasPrefix(kf.Status, "open") {
+				o.NoRetry = true
+			}
+		}
+	}
 	sv.run(solveList)
 	res.SolverMs, res.Queries, res.BySolver, res.Samples = sv.totalMs, sv.queries, sv.bySolver, sv.samples
 	if sv.retried > 0 {
